@@ -9,6 +9,12 @@ def sh(cmd, **kw): return subprocess.run(cmd, shell=True, capture_output=True, t
 def main():
     global REPO
     only = sys.argv[1:]
+    jsonout=None; budget=None
+    if '--json' in only:
+        i=only.index('--json'); jsonout=only[i+1]; del only[i:i+2]
+    if '--budget' in only:
+        i=only.index('--budget'); budget=float(only[i+1]); del only[i:i+2]
+    import time; t0=time.time(); results=[]; skipped=0
     env=''
     if '--scratch' in only:
         # work on a throw-away copy so that /repo and /verif/evidence stay untouched (safe to run beside other checks)
@@ -26,6 +32,8 @@ def main():
         print('refusing: /repo has uncommitted changes to tracked files'); return 2
     for e in entries:
         if only and not any(o in e['name'] or o==e['prop'] for o in only): continue
+        if budget is not None and time.time()-t0 > budget:
+            skipped+=1; continue
         n+=1
         path=os.path.join(REPO,e['file'])
         src=open(path).read()
@@ -44,8 +52,11 @@ def main():
                 ok = any(e['obligation'] in v for v in viol)
             print('%s %-5s %-40s expect=%s got=%s %s'%('ok  ' if ok else 'BAD ', e['prop'], e['name'], e['expect'], 'fail' if failed else 'pass', (viol[0].split('replay=')[1][:110] if viol else '')))
             if not ok: bad+=1
+            results.append({'name':e['name'],'expect':e['expect'],'got':'fail' if failed else 'pass','as_expected':bool(ok),'caught_by':(viol[0].split('replay=')[1].split('/')[-1][:120] if viol else '')})
         finally:
             open(path,'w').write(src)
     print('%d entries, %d bad'%(n,bad))
+    if jsonout:
+        json.dump({'entries_run':n,'skipped_for_time':skipped,'not_as_expected':bad,'results':results,'wall_s':round(time.time()-t0,1)},open(jsonout,'w'),indent=1)
     return 1 if bad else 0
 sys.exit(main())
